@@ -233,9 +233,9 @@ class Processor:
                 "Processor::set_value:  Seeking optional node at {}."
                 .format(yaml_path)
             )
-            for node_coord in self._get_optional_nodes(
+            for node_coord in list(self._get_optional_nodes(
                 self.data, yaml_path, value
-            ):
+            )):
                 self._apply_change(yaml_path, node_coord, value,
                     value_format=value_format, tag=tag)
 
